@@ -107,7 +107,7 @@ def handleRun (gr recursive rej script fuel : Sexp) : Option Sexp := do
     pure (.list ([.atom "ok", .list out] ++ encTables E g.st ++
       [.list (ys.map fun p => .list [ofBool (G.gen E.G p E.G.start), encORat (Beap.costOf E p E.G.start)])]))
 
-/-- `(beap.init grammar recursive fuel)` → `(ok costLists banks queues empties deleted minCostSpec)`:
+/-- `(beap.init grammar recursive fuel)` → `(ok costLists banks queues empties deleted minCostSpec minCostOK stable)`:
     the tables after `_init_non_terminal_(start); _reevaluate_()` and the minimal cost of every
     non-terminal by the specification (`Beap.minCostSpec`: value iteration, `none` = no program) -/
 def handleInit (gr recursive fuel : Sexp) : Option Sexp := do
@@ -119,7 +119,7 @@ def handleInit (gr recursive fuel : Sexp) : Option Sexp := do
     let mc := Beap.minCostSpec E
     pure (.list ([.atom "ok"] ++ encTables E s ++
       [.list ((AList.keys E.G.rules).map fun nt => encORat ((AList.lookup nt mc).getD none)),
-       ofBool (Beap.minCostOK E s)]))
+       ofBool (Beap.minCostOK E s), ofBool (Beap.stableB E s)]))
 
 def handle : Sexp → Option Sexp
   | .list [.atom "beap.run", gr, recursive, rej, script, fuel] => handleRun gr recursive rej script fuel
